@@ -48,7 +48,7 @@ def make_iso(pg, w, lab, ps, ls, tval, branch=None):
     n = len(ps)
     data = pd.DataFrame({"pressure": ps, "loading": ls, "enthalpy": [5.0 + i for i in range(n)], "tag": [f"r{i}" for i in range(n)]})
     br = branch if branch is not None else [0] * (n - n // 3) + [1] * (n // 3)
-    return pg.PointIsotherm(isotherm_data=data, pressure_key="pressure", loading_key="loading", other_keys=["enthalpy", "tag"],
+    return pg.PointIsotherm(isotherm_data=data, pressure_key="pressure", loading_key="loading",
                             branch=br, material=w.mat.name, adsorbate=w.ads.name, temperature=tval,
                             pressure_mode=lab[0], pressure_unit=lab[1], loading_basis=lab[2], loading_unit=lab[3],
                             material_basis=lab[4], material_unit=lab[5], temperature_unit=lab[6], note="kept", n=3)
